@@ -222,6 +222,114 @@ def check_history(case):
     return out
 
 
+# -- beyond the small scope: deep stacks, long histories, large dictionaries, mapping subclasses and unusual value types --------
+
+import decimal
+
+from mc import gen
+
+
+class _Str(object):
+    def __str__(self):
+        return "object-with-str"
+
+
+def _xdicts():
+    return [
+        gen.OrderedDict([("X-A", "o1"), ("X-B", "o2")]), gen.MyDict({"x-a": "m1"}), {"X-A": gen.MyStr("ms")}, {"x-b": gen.MyInt(5)},
+        {"X-A": decimal.Decimal("1.50")}, {"X-C": _Str()}, {"X-A": 1e300}, {"X-B": -0.0}, {"X-A": (1, 2)}, {"X-A": "v" * 5000},
+        {"X-H%d" % i: "h%d" % i for i in range(40)}, {"x-h%d" % i: i for i in range(0, 40, 3)}, {"X-" + "n" * 200: "long-name"},
+        gen.OrderedDict([("User-Agent", "ua-o")]), {"X-A": "1"}, {"x-a": "2"},
+    ]
+
+
+XD = _xdicts()
+
+
+def extended_cases(tier):
+    for i in range(len(XD)):
+        for j in range(len(XD)):
+            for kind in ("call", "batch"):
+                yield ("pair", i, j, kind)
+    for depth in (5, 12, 40):
+        for start in range(len(XD)):
+            yield ("deep", depth, start, "call")
+    for n in ((60, 400) if tier == "quick" else (60, 400, 5000)):
+        for mode in ("normal", "exception", "mixed", "nested"):
+            for ctor in (None, 14):
+                yield ("long", n, mode, ctor)
+
+
+def check_extended(case):
+    what, a, b, c = case
+    out = Out(cls="extended/" + what)
+    peer = env.ScriptPeer()
+    with env.client_net(peer):
+        try:
+            if what == "pair":
+                proxy = jsonrpclib.ServerProxy("http://h.test:80/p", headers=XD[a], config=CFG)
+                with proxy._additional_headers(XD[b]):
+                    do_request(proxy, c)
+                model = [XD[a], XD[b]]
+            elif what == "deep":
+                proxy = jsonrpclib.ServerProxy("http://h.test:80/p", config=CFG)
+                t = proxy("transport")
+                model, cms, snaps = [{}], [], []
+                for k in range(a):
+                    d = XD[(b + k * 5) % len(XD)]
+                    snaps.append(list(t.additional_headers))
+                    cm = proxy._additional_headers(d)
+                    cm.__enter__()
+                    cms.append(cm)
+                    model.append(d)
+                do_request(proxy, c)
+                for sig, detail in judge_wire(peer.requests[-1], model, "%d nested blocks" % a):
+                    out.bad(sig, detail)
+                while cms:
+                    cms.pop().__exit__(None, None, None)
+                    model.pop()
+                    if not same_stack(t.additional_headers, snaps.pop()):
+                        out.bad("C18/headers-not-restored-after-block/normal", "%r: stack differs after leaving nested block %d" % (case, len(cms)))
+                        break
+                do_request(proxy, c)
+            else:
+                ctor = XD[c] if c is not None else None
+                proxy = jsonrpclib.ServerProxy("http://h.test:80/p", headers=ctor, config=CFG)
+                t = proxy("transport")
+                base = list(t.additional_headers)
+                for k in range(a):
+                    d = XD[k % len(XD)]
+                    if b == "nested":
+                        with proxy._additional_headers(d):
+                            with proxy._additional_headers(XD[(k + 3) % len(XD)]):
+                                pass
+                    elif b == "normal" or (b == "mixed" and k % 2):
+                        with proxy._additional_headers(d):
+                            pass
+                    else:
+                        try:
+                            with proxy._additional_headers(d):
+                                raise Boom("inside block %d" % k)
+                        except Boom:
+                            pass
+                if not same_stack(t.additional_headers, base):
+                    out.bad("C18/headers-not-restored-after-block/%s" % ("exception" if b == "exception" else "normal"),
+                            "%r: after %d blocks the stack has %d entries, before the first it had %d" % (case, a, len(t.additional_headers), len(base)))
+                do_request(proxy, "call")
+                model = [ctor or {}]
+        except Exception as ex:
+            return out.bad("C18/raises-%s" % type(ex).__name__, "%r raised %r" % (case, ex))
+    if not peer.requests:
+        return out.bad("C18/no-request-sent", "%r" % (case,))
+    for sig, detail in judge_wire(peer.requests[-1], model, "%r" % (case,)):
+        out.bad(sig, detail[:600])
+    return out
+
+
+def leg_extended(part, tier, shard, nshards):
+    drive(part, "extended", extended_cases(tier), shard, nshards, check_extended)
+
+
 def leg_stacks(part, tier, shard, nshards):
     drive(part, "stacks", stack_cases(tier), shard, nshards, check_stack)
 
@@ -232,7 +340,7 @@ def leg_history(part, tier, shard, nshards):
     part.count("transitions", part.evals.get("histories", 0))
 
 
-LEGS = {"stacks": leg_stacks, "histories": leg_history}
+LEGS = {"stacks": leg_stacks, "histories": leg_history, "extended": leg_extended}
 
 META = {
     "engine": "E2-fake-network-history-search+E3-small-scope-enumeration",
@@ -241,7 +349,10 @@ META = {
     "rule": "stacks: constructor headers (none or one of 17 dictionaries; thorough 30) + 0..2 nested blocks (thorough ..3), every combination with "
     "repetition, x {call, notification, batch}; dictionaries cover case variants of one name, non-string and falsy values, User-Agent and the protected "
     "names in several spellings; histories: every event sequence of length <=5 (thorough <=6) over {enter block d0..d4 (two of them equal under == but with different str() values), leave normally, leave by "
-    "exception, call, notify, batch} with nesting <=3, with and without constructor headers; every case non-trivial",
+    "exception, call, notify, batch} with nesting <=3, with and without constructor headers; extended: every ordered pair of 16 further dictionaries (OrderedDict and dict subclass, values "
+    "of str/int subclasses, Decimal, objects with __str__, huge floats, tuples, a 5000-character value, 40 names in one dictionary, a 200-character name) as "
+    "constructor headers + block; 5/12/40 nested blocks with restoration checked at every level; 60/400 (thorough 5000) consecutive blocks left normally, by "
+    "exception, alternately, or nested in pairs, then a request; every case non-trivial",
     "bounds": {"quick": {"stack_depth": 3, "dicts": 17, "history_depth": 5}, "thorough": {"stack_depth": 4, "dicts": 30, "history_depth": 6}},
     "assumptions": [
         "one dictionary never contains two case variants of the same name (the property does not order members of one dictionary)",
@@ -255,4 +366,6 @@ def replay(case):
     c = eval(case["case"], {"__builtins__": {}}, {})
     if case["leg"] == "stacks":
         return check_stack(c).viols
+    if case["leg"] == "extended":
+        return check_extended(c).viols
     return check_history(c).viols
